@@ -252,6 +252,7 @@ theorem boxed_hex_exact {hex : List Nat} (bp : Nat) (hc : Bytes hex) :
         simp [hs]
   · simp [hl]
 
+
 /-! ### `Odd::<Uint>::from_be_hex` / `from_le_hex` (DESIGN §7 row 2, repaired by fix dd30bc0; the
     `NonZero` byte-array twin, row 9 / fix ad61352, is `decode_le_exact` + `NonZero::new`, C12) -/
 
@@ -396,6 +397,21 @@ theorem boxed_of_vec_exact (l : List Nat) :
     refine ⟨rfl, ?_, fun _ => rfl⟩
     show (x :: xs).length = _
     simp only [List.length_cons]; omega
+
+
+/-- the API result (since /repo fix 01d03c6 the decoded vector is wrapped by `From<Vec<Limb>>`): same
+    panic condition and `is_some` flag as the decoding loop, the same value, and always at least one limb -/
+theorem boxed_hex_api_exact (hex : List Nat) (bp : Nat) :
+    (boxedFromBeHexApi hex bp = none ↔ boxedFromBeHex hex bp = none) ∧
+    (∀ l ok, boxedFromBeHex hex bp = some (l, ok) →
+      ∃ l', boxedFromBeHexApi hex bp = some (l', ok) ∧ val l' = val l ∧ l'.length = max 1 l.length ∧
+        (l ≠ [] → l' = l)) := by
+  unfold boxedFromBeHexApi
+  constructor
+  · cases boxedFromBeHex hex bp <;> simp
+  · intro l ok h
+    rw [h]
+    exact ⟨boxedOfVec l, rfl, (boxed_of_vec_exact l).1, (boxed_of_vec_exact l).2.1, (boxed_of_vec_exact l).2.2⟩
 
 /-- a zero-limb `BoxedUint` prints exactly like one zero limb -/
 theorem boxed_fmt_empty (upper alt : Bool) :
